@@ -145,8 +145,31 @@ Definition smart_pass (g : grammar) (terminals sfxs : list sym) : grammar * list
       else (gupdate g s (renumber s nr 0), rem ++ rem')) order (g, []) in
   (gremove g' rem, filter (fun s => negb (mem s rem)) sfxs).
 
-(* _factorize_productions *)
+(* "Symbol names containing '__' are reserved" *)
+Fixpoint has_dunder (s : sym) : bool :=
+  match s with
+  | [] => false
+  | x :: r => match r with
+              | y :: _ => (Z.eqb x 95 && Z.eqb y 95) || has_dunder r
+              | [] => false
+              end
+  end.
+
+Fixpoint nodup_syms (l : list sym) : bool :=
+  match l with
+  | [] => true
+  | x :: r => negb (mem x r) && nodup_syms r
+  end.
+
+(* _create_productions + _factorize_productions.  The assertions of the code are part of
+   the model:  assert '__' not in symbol  (for every key of the user's productions, and for
+   every symbol inside a plain production),
+   assert s not in result_rules  /  assert grp_symbol_suffix not in suffix_symbols
+   (no symbol is produced twice by the factorization). *)
 Definition factorize (ug : list (sym * list (list sym))) (terminals : list sym) (smart : bool)
   : res (grammar * list sym) :=
+  if existsb has_dunder (map fst ug)
+     || existsb (fun kv => existsb (existsb has_dunder) (snd kv)) ug then Err AssertErr else
   bind (factorize_all (create_productions ug 0)) (fun '(g, sfxs) =>
-    if smart then Ok (smart_pass g terminals sfxs) else Ok (g, sfxs)).
+    if negb (nodup_syms (gkeys g)) then Err AssertErr
+    else if smart then Ok (smart_pass g terminals sfxs) else Ok (g, sfxs)).
